@@ -11,7 +11,7 @@ import (
 )
 
 type Expr struct {
-	Kind string // lit, var, add, mul, call
+	Kind string // lit, var, add, mul, call, read (bondgo.IORead of input Var)
 	Lit  uint64
 	Var  int
 	L, R *Expr
@@ -66,6 +66,8 @@ type Worker struct {
 type Program struct {
 	Rsize   int
 	Outputs []int // global index given to bondgo.Make, per local output
+	Inputs  []int // the same for inputs (main only); InVals: the constant value the environment holds on each
+	InVals  []uint64
 	Vars    []Var
 	Funcs   []Func
 	Workers []Worker
@@ -95,6 +97,7 @@ type gen struct {
 	ncall  int // functions 0..ncall-1 may be called here
 	budget int // calls left in this program (inlining multiplies code size)
 	nchain int // worker chains reachable here (main only)
+	nin    int // inputs readable here (main only)
 }
 
 // expr draws an expression. bondgo has no parenthesised expressions, so only
@@ -120,6 +123,9 @@ func (g *gen) exprK(depth int, allowAdd bool) *Expr {
 		}
 		g.p.HasCall = true
 		return e
+	}
+	if g.nin > 0 && g.t.Draw(5) == 1 {
+		return &Expr{Kind: "read", Var: g.t.Draw(g.nin)}
 	}
 	switch k {
 	case 0:
@@ -188,7 +194,12 @@ func (g *gen) stmts(n, depth int, inLoop bool) []Stmt {
 				g.p.HasChanBlock = true
 				continue
 			}
+			// (the value of a send is not drawn from the inputs: bondgo refuses `ch <- bondgo.IORead(in)` with an
+			// error — the send statement's operands are walked a second time as statements)
+			nin := g.nin
+			g.nin = 0
 			out = append(out, Stmt{Kind: "rpc", Chain: g.t.Draw(g.nchain), E: g.expr(1), Var: g.t.Draw(len(g.vars))})
+			g.nin = nin
 			continue
 		}
 		k := g.t.Draw(8)
@@ -344,9 +355,22 @@ func Generate(t *simrt.Tape) *Program {
 		p.ChanBlockFirst = true
 		p.HasChanBlock = true
 	}
+	// inputs (read with bondgo.IORead; the environment holds a constant on each)
+	if t.Draw(3) == 1 {
+		for i, n := 0, 1+t.Draw(2); i < n; i++ {
+			p.Inputs = append(p.Inputs, 10+i+t.Draw(3)*2)
+			p.InVals = append(p.InVals, uint64(1+t.Draw(250)))
+		}
+	}
+	g.nin = len(p.Inputs)
 	g.vars, g.nout, g.ncall, g.nchain = p.Vars, len(p.Outputs), nf, len(p.Chains)
 	p.Init = g.stmts(t.Draw(4), depth, false)
 	p.Loop = g.stmts(1+t.Draw(5), depth, false)
+	// every declared input is read at least once (a processor with an input port and no opcode that serves
+	// it does not elaborate: C18's matter, not the compiler's)
+	for i := range p.Inputs {
+		p.Init = append(p.Init, Stmt{Kind: "assign", Var: t.Draw(len(p.Vars)), E: &Expr{Kind: "read", Var: i}})
+	}
 	// every chain is exercised
 	for c := range p.Chains {
 		p.Loop = append(p.Loop, Stmt{Kind: "rpc", Chain: c, E: &Expr{Kind: "var", Var: 0}, Var: t.Draw(len(p.Vars))})
@@ -366,6 +390,8 @@ func (p *Program) exprSrc(vars []Var, e *Expr) string {
 		return vars[e.Var].Name
 	case "add":
 		return p.exprSrc(vars, e.L) + " + " + p.exprSrc(vars, e.R)
+	case "read":
+		return fmt.Sprintf("bondgo.IORead(in%d)", e.Var)
 	case "call":
 		var a []string
 		for _, x := range e.Args {
@@ -483,6 +509,9 @@ func (p *Program) Source() string {
 	for i := range p.Outputs {
 		fmt.Fprintf(&b, "\tvar out%d bondgo.Output\n", i)
 	}
+	for i := range p.Inputs {
+		fmt.Fprintf(&b, "\tvar in%d bondgo.Input\n", i)
+	}
 	if p.ChanBlockFirst {
 		fmt.Fprintf(&b, "\t{\n\t\tvar tc chan %s\n\t}\n", p.typ())
 	}
@@ -504,6 +533,9 @@ func (p *Program) Source() string {
 	}
 	for i, o := range p.Outputs {
 		fmt.Fprintf(&b, "\tout%d = bondgo.Make(bondgo.Output, %d)\n", i, o)
+	}
+	for i, o := range p.Inputs {
+		fmt.Fprintf(&b, "\tin%d = bondgo.Make(bondgo.Input, %d)\n", i, o)
 	}
 	for c, ch := range p.Chains {
 		for k, w := range ch {
@@ -545,6 +577,8 @@ func (s *evalState) expr(e *Expr) uint64 {
 		return e.Lit & s.mask
 	case "var":
 		return s.vars[e.Var]
+	case "read":
+		return s.p.InVals[e.Var] & s.mask
 	case "add":
 		return (s.expr(e.L) + s.expr(e.R)) & s.mask
 	case "call":
@@ -723,6 +757,7 @@ func (p *Program) Features() []string {
 	add(p.HasContinue, "continue")
 	add(p.HasCall, "call")
 	add(p.HasShadow, "shadow")
+	add(len(p.Inputs) > 0, "inputs")
 	add(p.HasGo, "goroutines")
 	add(p.HasGoValArgs, "goroutine-value-args")
 	add(p.HasChanBlock, "block-scoped-channel")
